@@ -281,7 +281,7 @@ func loadCtx(repo, arch string, variant *Variant, controls bool) (*Ctx, error) {
 	}
 	fset := token.NewFileSet()
 	cfg := &packages.Config{
-		Mode:    packages.LoadAllSyntax,
+		Mode:    packages.LoadAllSyntax | packages.NeedModule,
 		Dir:     repo,
 		Fset:    fset,
 		Env:     env,
